@@ -195,8 +195,10 @@ def canon_class(c):
 
 
 class C17:
-    def __init__(self, rep, seed, tag="c17", mode=DEFAULT_MODE):
-        self.rep, self.seed, self.mode = rep, seed, mode
+    def __init__(self, rep, seed, tag="c17", mode=DEFAULT_MODE, custom=None):
+        self.rep, self.seed, self.mode, self.custom = rep, seed, mode, custom
+        if custom:
+            self.mode = "custom:" + custom["label"]
         self.model = lean_driver("auth")
         self.tables = self.ask("tables")
         kv = dict(x.split("=", 1) for x in self.tables.split(" "))
@@ -227,19 +229,29 @@ class C17:
         return a
 
     # ---- server life cycle (a server that dies is an observation, after which a new one is started)
-    def start_server(self, mode=None):
-        if mode is not None:
-            self.mode = mode
+    def start_server(self, mode=None, custom=None):
+        """mode: a key of MODES; custom: a server given ANOTHER password value (config_value_family): dict(label, kw, cli, lines,
+        given, password) — `lines` are the raw lines of the configuration file, `given` the values they were written to carry"""
+        if custom is not None:
+            self.custom, self.mode = custom, "custom:" + custom["label"]
+        elif mode is not None:
+            self.custom, self.mode = None, mode
         if self.srv is not None:
             for b in getattr(self, "bystanders", []):
                 b[0].close()
             self.srv.stop()
-        M = MODES[self.mode]
+        M = getattr(self, "custom", None) or MODES[self.mode]
+        self.password = M.get("password", PASSWORD)
+        hl = lambda xs: "|".join(hx(x) for x in xs) or "."
         # probe=False: nobody connects before us, so the first bystander below is the FIRST connection the server ever accepts
         self.srv = Server(self.tag, probe=False, **M["kw"])
-        a = self.ask("config %s %s" % ("|".join(hx(x) for x in M["cli"]) or ".", "|".join(hx(x) for x in M["file"]) or "."))
+        if "lines" in M:
+            a = self.ask("configlines %s %s %s" % (hl(M["cli"]), hl(M["lines"]), hl(M["given"])))
+        else:
+            a = self.ask("config %s %s" % (hl(M["cli"]), hl(M["file"])))
         self.model_password, self.spec_password = (x.split("=")[1] for x in a.split(" "))
-        if self.spec_password != hx(PASSWORD):
+        self.no_pred = self.model_password == "unknown"
+        if self.spec_password != hx(self.password):
             raise InternalError("mode %s: the Spec's password is %s" % (self.mode, self.spec_password))
         # bystanders: connections that never send AUTH and stay open for the life of this server; every case ends by probing them
         self.bystanders = []
@@ -253,11 +265,11 @@ class C17:
         self.ctl = self.srv.client()
         self.m_accept(expect=None)           # the control connection exists in the model too
         self.ctl_id = self.next_conn - 1
-        r = self.ctl.cmd("AUTH", PASSWORD)
-        m = self.ask("frame %d cmd %s %s" % (self.ctl_id, hx(b"AUTH"), hx(PASSWORD)))
+        r = self.ctl.cmd("AUTH", self.password)
+        m = self.ask("frame %d cmd %s %s" % (self.ctl_id, hx(b"AUTH"), hx(self.password)))
         if r != ("s", b"OK"):
             raise ControlAuthFailed(r)
-        if not (m.startswith("ok # auth-ok # authenticated") or (self.blind and m.startswith("unknown # auth-ok"))):
+        if not (m.startswith("ok # auth-ok # authenticated") or ((self.blind or self.no_pred) and m.startswith("unknown # auth-ok"))):
             raise InternalError("model: the exact password does not authenticate: %r" % m)
         for db in CANARY_DBS:
             self.ctl.cmd("SELECT", db)
@@ -439,6 +451,8 @@ class C17:
         rec = {"case": {"tag": case["tag"], "pre": [q.to_json() for q in case["pre"]], "other_auth": case.get("other_auth", False),
                         "pipe": [q.to_json() for q in case["pipe"]], "target": case["target"], "cuts": case.get("cuts", []), "mode": self.mode},
                "impl": [], "code": [], "spec": [], "problems": []}
+        if getattr(self, "custom", None):
+            rec["case"]["custom"] = custom_json(self.custom)
         self.cur = rec
         leaked_here = 0
         received = []                                  # every frame this unauthenticated connection ever got
@@ -466,8 +480,8 @@ class C17:
             if case.get("other_auth"):
                 o = self.srv.client()
                 oid = self.m_accept()
-                r = o.cmd("AUTH", PASSWORD)
-                m = self.ask("frame %d cmd %s %s" % (oid, hx(b"AUTH"), hx(PASSWORD)))
+                r = o.cmd("AUTH", self.password)
+                m = self.ask("frame %d cmd %s %s" % (oid, hx(b"AUTH"), hx(self.password)))
                 r2 = o.cmd("GET", "c17:n")
                 if r != ("s", b"OK") or r2 != ("b", b"10"):
                     rec["problems"].append({"kind": "oracle", "why": "the exact password did not authenticate another connection", "impl": [repr(r), repr(r2)], "code": m})
@@ -967,6 +981,9 @@ def main(tier, seed):
         # -- 5. the same server GIVEN its password in every other supported way
         if not budget.spent():
             recs += config_family(c17, r, tier, sts, reqs, budget)
+        # -- 6. … and GIVEN other password values (special characters, blanks, quotes, long, empty …) through the file and the command line
+        if not budget.spent():
+            recs += config_value_family(c17, r, tier, budget)
         if budget.spent():
             rep.extra["stopped_early"] = "after %d cases with oracle failures" % budget.n
         rep.traces_validated = rep.evaluations
@@ -1095,6 +1112,162 @@ def config_family(c17, r, tier, sts, reqs, budget):
         recs += matrix(c17, r, "quick", sts[:2] if tier == "quick" else sts[:2] + sts[-3:], sample, budget, fixed_situations=True)
         if budget.spent():
             break
+    c17.start_server(DEFAULT_MODE)
+    return recs
+
+
+# ------------------------------------------------------------------------------------------ the password VALUE as a dimension
+RUST_WS = "\t\n\x0b\x0c\r \x85\xa0\u1680\u2000\u2001\u2002\u2003\u2004\u2005\u2006\u2007\u2008\u2009\u200a\u2028\u2029\u202f\u205f\u3000"   # char::is_whitespace
+SPECIALS = b"#;=\"' \t\\"
+VALUES = [
+    ("hash-inside", "Tr0ub4dor#3x"), ("hash-first", "#lead"), ("hash-after-blank", "pw #not-a-comment"), ("hash-last", "tail#"), ("semicolon", "a;b;"),
+    ("equals", "k=v"), ("double-quoted", '"quoted pw"'), ("single-quoted", "'q'"), ("one-quote", 'half"quoted'), ("inner-blanks", "in ner  blanks"),
+    ("inner-tab", "tab\tinside"), ("backslashes", "back\\slash\\n\\x41\\"), ("non-ascii", "p\u00e4ssw\u00f6rd-\u5bc6\u7801-\U0001f511"), ("very-long", "L0ng#" * 800),
+    ("looks-like-directive", "port 1"), ("looks-like-requirepass", "requirepass other"), ("looks-like-option", "--port"), ("looks-like-conf", "x.conf"),
+    ("percent-dollar", "100%$HOME~"), ("yes", "yes"), ("leading-blank", " lead"), ("trailing-blank", "trail "), ("leading-tab", "\tlead"),
+    ("trailing-tab", "trail\t"), ("nbsp-edges", "\u00a0pw\u00a0"), ("empty", ""),
+]
+
+
+def expressible(source, value):
+    """can this way of configuring the password carry the value at all?  (None = yes, else the reason — read from the code)"""
+    if source == "cli":
+        # cli.rs: `cli_args.password = Some(args[i + 1].clone())` — the next argv element verbatim, whatever it looks like; argv cannot carry NUL
+        return "argv cannot carry a NUL byte" if "\0" in value else None
+    # parser.rs parse_config_file: `line.trim()`, `splitn(2, ' ')`, `value = parts[1].trim()`
+    if value == "":
+        return "`requirepass ` with nothing behind it trims to one word: ConfigParseError::Format, the server does not start"
+    if "\n" in value or "\r" in value:
+        return "the file is read line by line (BufRead::lines)"
+    if value != value.strip(RUST_WS):
+        return "the value is `parts[1].trim()`: white space (char::is_whitespace) at either end is stripped, so it cannot be part of the password"
+    return None
+
+
+def custom_mode(source, vtag, value):
+    pw = value.encode("utf-8")
+    if source == "cli":
+        return dict(label="%s/%s" % (source, vtag), source=source, vtag=vtag, value=value, kw=dict(password=value), cli=[pw], file=[], password=pw)
+    line = "requirepass " + value
+    return dict(label="%s/%s" % (source, vtag), source=source, vtag=vtag, value=value, kw=dict(config_lines=["# c17 value family", line]),
+                cli=[], lines=[b"# c17 value family", line.encode("utf-8")], given=[pw], password=pw)
+
+
+def custom_json(c):
+    return {"source": c["source"], "vtag": c["vtag"], "value_hex": hx(c["value"].encode("utf-8")), "value": c["value"][:80]}
+
+
+def value_variants(v):
+    """wrong passwords derived from the value the server was given: proper prefixes and suffixes (all of them for short values, around every
+    special character and at both ends for long ones), trimmed, unquoted, unescaped, split at every special character, case changes, extensions"""
+    n = len(v)
+    cuts = set(range(0, n + 1)) if n <= 24 else {0, 1, 2, 3, n - 3, n - 2, n - 1}
+    for i, ch in enumerate(v):
+        if ch in SPECIALS or ch >= 0x80:
+            cuts |= {i, i + 1}
+            if len(cuts) > 60:
+                break
+    out = []
+    for c in sorted(cuts):
+        if 0 <= c <= n:
+            out += [("prefix%d" % c, v[:c]), ("suffix%d" % c, v[c:])]
+    ws = b" \t\xc2\xa0"
+    out += [("trimmed", v.strip()), ("trimmed-nbsp", v.strip(ws)), ("unquoted", v.strip(b"\"'")), ("unquoted-trimmed", v.strip(b"\"' \t")),
+            ("no-backslashes", v.replace(b"\\", b"")), ("unescaped", v.replace(b"\\n", b"\n").replace(b"\\x41", b"A").replace(b"\\\\", b"\\")),
+            ("blanks-collapsed", b" ".join(v.split())), ("no-blanks", b"".join(v.split())),
+            ("lower", v.lower()), ("upper", v.upper()), ("swapcase", v.swapcase()),
+            ("plus-x", v + b"x"), ("plus-blank", v + b" "), ("blank-plus", b" " + v), ("plus-hash", v + b"#"), ("plus-hash-comment", v + b" # comment"),
+            ("quoted", b'"' + v + b'"'), ("single-quoted", b"'" + v + b"'"), ("doubled", v + v), ("directive-and-value", b"requirepass " + v),
+            ("default-password", PASSWORD), ("nul-terminated", v + b"\x00"), ("crlf", v + b"\r\n")]
+    seen, res = {v}, []
+    for t, w in out:
+        if w not in seen:
+            seen.add(w)
+            res.append((t, w))
+    return res
+
+
+def config_value_family(c17, r, tier, budget):
+    """the password VALUE is a dimension of how the server is configured.  For each value (with `#`, `;`, `=`, quotes, blanks and tabs inside or
+    at the ends, backslashes, non-ASCII, 4 kB, looking like a directive / an option / a file name, empty) x {configuration file, command line}: what the
+    server was GIVEN is the value written into the file / argv (when that source can express it — otherwise the value is skipped with the
+    reason, read from the parser's code, in the evidence); then exactly that value authenticates (the control connection), an unauthenticated
+    connection is refused (the first-accepted one, before anything else), and every variant is refused as `AUTH variant; GET c17:n` in one write."""
+    recs = []
+    skipped = []
+    for vtag, value in VALUES:
+        for source in ("file", "cli"):
+            why = expressible(source, value)
+            if why:
+                skipped.append("%s/%s (%r): %s" % (source, vtag, value[:20], why))
+                c17.rep.count("config-value.not-expressible.%s" % source)
+                continue
+            cm = custom_mode(source, vtag, value)
+            c17.rep.count("config-value.%s" % source)
+            pw = cm["password"]
+            variants = value_variants(pw)
+            try:
+                c17.start_server(custom=cm)
+            except (ServerOpen, ControlAuthFailed, InternalError) as e:
+                if isinstance(e, InternalError) and "server" not in str(e):
+                    raise
+                kind = "open" if isinstance(e, ServerOpen) else "exact-refused" if isinstance(e, ControlAuthFailed) else "does-not-start"
+                got = show_reply(e.args[0]) if kind != "does-not-start" else str(e)[-200:]
+                rec = {"case": {"tag": "config-value/%s/%s/%s" % (source, vtag, kind), "mode": "custom:" + cm["label"], "custom": custom_json(cm), "pre": [], "other_auth": False,
+                                "pipe": [(PROBE if kind == "open" else Req(b"AUTH", [pw])).to_json()], "target": 0, "cuts": [],
+                                "server_argv": c17.srv.argv[1:] if c17.srv else None, "config_lines": cm["kw"].get("config_lines")},
+                       "impl": [{"stage": "pipe", "classes": [got]}], "code": [], "spec": [{"stage": "pipe", "verdicts": ["must-refuse" if kind == "open" else "auth-ok"]}],
+                       "problems": [{"kind": "oracle" if kind != "does-not-start" else "model", "why": {
+                           "open": "unauthenticated GET c17:n answered %s by a server given the password %r through its %s",
+                           "exact-refused": "AUTH with exactly the password the server was given answered %s (password %r, given through its %s)",
+                           "does-not-start": "the server does not start (%s) with password %r given through its %s, which the grammar should express"}[kind] % (
+                               got, value[:60], "configuration file" if source == "file" else "command line")}]}
+                if kind == "exact-refused":
+                    # which password IS in force then?  (no control connection: plain connections, AUTH variant then the benign probe)
+                    for t, w in variants:
+                        try:
+                            u = c17.srv.client()
+                            a, g = u.cmd("AUTH", w), u.cmd(*PROBE_ARGS)
+                            u.close()
+                        except (OSError, Closed, ProtocolError):
+                            continue
+                        if a == ("s", b"OK") or g[0] != "e":
+                            rec["case"]["tag"] = "config-value/%s/%s/%s-authenticates" % (source, vtag, t)
+                            rec["problems"].insert(0, {"kind": "oracle", "why": "a wrong password authenticated: AUTH %r (%s of the password %r given through the %s): AUTH -> %s, GET c17:n -> %s" % (
+                                w[:60].decode("latin-1"), t, value[:60], "configuration file" if source == "file" else "command line", show_reply(a), show_reply(g)[:40])})
+                            rec["case"]["pipe"] = [Req(b"AUTH", [w]).to_json(), PROBE.to_json()]
+                            break
+                c17.rep.evaluations += 1
+                budget.n += 1
+                recs.append(rec)
+                if budget.spent():
+                    break
+                continue
+            c17.rep.nontrivial(("config-value", source, vtag, c17.model_password == hx(pw)))
+            if c17.model_password not in (hx(pw), "unknown") and not c17.blind:
+                recs.append({"case": {"tag": "config-value/%s/%s/model" % (source, vtag), "mode": c17.mode, "pre": []}, "impl": [], "code": [], "spec": [],
+                             "problems": [{"kind": "model", "why": "the model's password in force is %s, given %s" % (c17.model_password, hx(pw))}]})
+            if tier == "quick" and len(variants) > 36:
+                keep = [x for x in variants if not x[0].startswith(("prefix", "suffix"))]
+                ps = [x for x in variants if x[0].startswith(("prefix", "suffix"))]
+                variants = keep + [ps[i] for i in sorted(set(r.below(len(ps)) for _ in range(16)))]
+            for i, (t, w) in enumerate(variants):
+                case = {"tag": "config-value/%s/%s/%s" % (source, vtag, t), "other_auth": False, "target": 0}
+                if i % 3 == 2:
+                    case.update({"pre": [Req(b"AUTH", [w]), PROBE], "pipe": [Req(b"PING", [])]})
+                else:
+                    case.update({"pre": [], "pipe": [Req(b"auth" if i % 3 else b"AUTH", [w]), PROBE]})
+                rec = c17.run_case(case)
+                budget.note(rec)
+                c17.rep.nontrivial(("config-value-variant", source, vtag, t.rstrip("0123456789"), tclass(rec, 0).split(" ")[0]))
+                c17.rep.count("config-value.variants")
+                if rec["problems"]:
+                    recs.append(rec)
+                if budget.spent():
+                    break
+        if budget.spent():
+            break
+    c17.rep.extra["config_values_not_expressible"] = skipped
     c17.start_server(DEFAULT_MODE)
     return recs
 
@@ -1306,7 +1479,11 @@ def replay(path):
     build_server()
     case = rp["case"]
     try:
-        c17 = C17(rep, obj.get("seed", 0), tag="c17replay", mode=case.get("mode", DEFAULT_MODE))
+        cj = case.get("custom")
+        if cj:
+            c17 = C17(rep, obj.get("seed", 0), tag="c17replay", custom=custom_mode(cj["source"], cj["vtag"], unhx(cj["value_hex"]).decode("utf-8")))
+        else:
+            c17 = C17(rep, obj.get("seed", 0), tag="c17replay", mode=case.get("mode", DEFAULT_MODE))
     except (ServerOpen, ControlAuthFailed) as e:
         print("case  :", case["tag"], "(mode %s)" % case.get("mode", DEFAULT_MODE))
         print("  oracle: %s: %r" % ("the server answered its first, unauthenticated connection" if isinstance(e, ServerOpen) else
